@@ -305,3 +305,144 @@ pub mod c18 {
         }
     }
 }
+
+// C09 positive controls: a module loader that is wrong in all six ways the rules of rules/c09.py look for
+pub mod c09 {
+    use std::collections::HashMap;
+    #[derive(Clone, PartialEq, Eq, Hash)]
+    pub struct ModulePath(pub String);
+    impl ModulePath {
+        pub fn new(s: &str) -> ModulePath { ModulePath(s.to_string()) }
+        pub fn resolve(spec: &str, _base: Option<&ModulePath>) -> ModulePath { ModulePath(spec.to_string()) }
+    }
+    #[derive(Clone)]
+    pub struct ImportRequest { pub specifier: String, pub resolved_path: ModulePath, pub importer: Option<ModulePath> }
+    pub enum StepResult { NeedImports(Vec<ImportRequest>), Continue }
+    pub enum ImportSpecifier { Named(String), Default(String), Namespace(String) }
+    pub struct Program { pub imports: Vec<(String, Vec<ImportSpecifier>)> }
+    pub struct ImportBinding { pub module: u32, pub key: String }
+    pub enum JsFunction { ModuleExportGetter { name: String }, ModuleReExportGetter { src: u32, key: String }, Other }
+    pub enum ModuleExport { Direct { name: String, value: u64 }, ReExport { source_module: u32, source_key: String } }
+    pub struct Interpreter {
+        pub loaded_modules: HashMap<ModulePath, u32>,
+        pub pending_module_sources: HashMap<ModulePath, Program>,
+        pub bindings: HashMap<String, u64>,
+        pub import_bindings: Vec<ImportBinding>,
+        pub exports: Vec<(String, ModuleExport)>,
+        pub published: Vec<(String, u64)>,
+        pub getters: Vec<JsFunction>,
+    }
+    impl Interpreter {
+        // R3: the request path is made from the raw specifier
+        fn collect(&self, program: &Program, base: Option<&ModulePath>) -> Vec<ImportRequest> {
+            let mut out = Vec::new();
+            for (s, _) in &program.imports {
+                let raw = ModulePath::new(s);
+                out.push(ImportRequest { specifier: s.clone(), resolved_path: raw, importer: base.cloned() });
+            }
+            out
+        }
+        fn filter_missing(&self, imports: Vec<ImportRequest>) -> Vec<ImportRequest> {
+            imports.into_iter().filter(|r| !self.loaded_modules.contains_key(&r.resolved_path)).collect()
+        }
+        fn filter_unprovided(&self, imports: Vec<ImportRequest>) -> Vec<ImportRequest> {
+            imports
+                .into_iter()
+                .filter(|r| !self.loaded_modules.contains_key(&r.resolved_path) && !self.pending_module_sources.contains_key(&r.resolved_path))
+                .collect()
+        }
+        // R6: the body runs before the module leaves the pending table
+        fn run_pending(&mut self, path: &ModulePath) -> Result<(), String> {
+            let n = self.body_len(path);
+            if n > 1000 {
+                return Err("too big".to_string());
+            }
+            self.pending_module_sources.remove(path);
+            self.loaded_modules.insert(path.clone(), n as u32);
+            Ok(())
+        }
+        fn body_len(&mut self, path: &ModulePath) -> usize {
+            let specs: Vec<String> = match self.pending_module_sources.get(path) {
+                Some(p) => p.imports.iter().map(|(s, _)| s.clone()).collect(),
+                None => Vec::new(),
+            };
+            specs.len()
+        }
+        pub fn process(&mut self) -> Result<Vec<ImportRequest>, String> {
+            loop {
+                let mut all: Vec<ImportRequest> = Vec::new();
+                let mut ready: Vec<ModulePath> = Vec::new();
+                let keys: Vec<ModulePath> = self.pending_module_sources.keys().cloned().collect();
+                for k in &keys {
+                    // R1: no test that k is not loaded yet
+                    if let Some(p) = self.pending_module_sources.get(k) {
+                        let imports = self.collect(p, Some(k));
+                        // R2: supplied-but-not-run modules count as available
+                        let missing = self.filter_unprovided(imports);
+                        if missing.is_empty() {
+                            ready.push(k.clone());
+                        } else {
+                            for r in missing {
+                                all.push(r); // R4: no membership guard
+                            }
+                        }
+                    }
+                }
+                if !ready.is_empty() {
+                    for k in ready {
+                        self.run_pending(&k)?;
+                    }
+                    continue;
+                }
+                if all.len() > 100 {
+                    continue; // R6: a cycle that runs nothing
+                }
+                return Ok(all);
+            }
+        }
+        pub fn start(&mut self, program: &Program) -> StepResult {
+            let imports = self.collect(program, None);
+            let missing = self.filter_missing(imports);
+            if !missing.is_empty() {
+                return StepResult::NeedImports(missing); // R4: not de-duplicated
+            }
+            self.install(program);
+            StepResult::Continue
+        }
+        pub fn start_unchecked(&mut self, program: &Program) -> StepResult {
+            self.install(program); // R2: bindings installed without a gate
+            StepResult::Continue
+        }
+        fn install(&mut self, program: &Program) {
+            for (_, specs) in &program.imports {
+                for s in specs {
+                    match s {
+                        // R5: a snapshot of the value at import time
+                        ImportSpecifier::Named(n) => {
+                            let v = *self.bindings.get(n).unwrap_or(&0);
+                            self.published.push((n.clone(), v));
+                        }
+                        ImportSpecifier::Default(n) => {
+                            self.import_bindings.push(ImportBinding { module: 0, key: n.clone() });
+                        }
+                        ImportSpecifier::Namespace(_) => {}
+                    }
+                }
+            }
+        }
+        pub fn finalise(&mut self) {
+            let exports: Vec<(String, ModuleExport)> = self.exports.drain(..).collect();
+            for (name, e) in exports {
+                match e {
+                    // R5: the value is copied, no getter, no binding test
+                    ModuleExport::Direct { name: _b, value } => {
+                        self.published.push((name, value));
+                    }
+                    ModuleExport::ReExport { source_module, source_key } => {
+                        self.getters.push(JsFunction::ModuleReExportGetter { src: source_module, key: source_key });
+                    }
+                }
+            }
+        }
+    }
+}
